@@ -3,7 +3,6 @@ package props
 import (
 	"fmt"
 	"strings"
-	"sync"
 
 	"verif/ev"
 	"verif/mc"
@@ -83,7 +82,6 @@ func c04Tokens(e *Env, g *chordlang.Grammar, p *chordlang.SLR) {
 	if e.Thorough {
 		maxTok = 14
 	}
-	var mu sync.Mutex
 	var sentences, negatives []string
 	var viableCount, unrenderable int
 	enumViable(p, g.Terms, maxTok, func(kinds []string, acc bool) {
@@ -111,7 +109,6 @@ func c04Tokens(e *Env, g *chordlang.Grammar, p *chordlang.SLR) {
 			}
 		}
 	})
-	_ = mu
 	all := append(append([]string{}, sentences...), negatives...)
 	mc.ParFor(len(all), func(i int) {
 		if !c04Text(e, p, all[i], false) {
